@@ -229,6 +229,9 @@ def run(ctx):
     nfiles = max(1, min(16, -(-len(body) // 40))) if len(body) <= 16 * per_file else -(-len(body) // per_file)
     files = [(body[i::nfiles], recs[i::nfiles]) for i in range(nfiles) if body[i::nfiles]]
     ctx.sample({"case": violation_data(cases[30][0], cases[30][1], [], cases[30][2])})
+    from harness import statecarry
+
+    statecarry.run_for(ctx, "C09")      # sequences of calls (state carried between calls)
     large_stream(ctx)
     # ------------------------------------------------------------------ correspondence inside coqc
     mism = []
@@ -343,6 +346,10 @@ def replay(ctx, data):
 
     if data.get("op") == "build-family":
         return S.replay_family(data)
+    if data.get("op") == "state-carry":
+        from harness import statecarry
+
+        return statecarry.replay(data)
 
     cells = S.cells_from_data(data["cells"])
     prem = data.get("summarize_premium", True)
